@@ -385,6 +385,101 @@ def _formulas(vc):
     no_purity_violation(vc)
 
 
+# ---------------------------------------------------------------------------- dtype of scaled data (C14)
+
+SOD_KINDS = ("linear", "poly3", "table", "noop", "rtd", "thermistor", "strain", "thermocouple", "add", "subtract")
+SOD_VARIANTS = [("%s,%s" % (k, d), (k, d)) for k in SOD_KINDS for d in ("int16", "float32", "float64")]
+
+
+def _setup_sod(interp):
+    _setup_rtd(interp)
+
+
+@harness("scale_output_dtype", ["scaling.LinearScaling.scale", "scaling.PolynomialScaling.scale",
+                                "scaling.TableScaling.scale", "scaling.NoOpScaling.scale", "scaling.RtdScaling.scale",
+                                "scaling.ThermistorScaling.scale", "scaling.StrainScaling.scale",
+                                "scaling.ThermocoupleScaling.scale", "scaling.AddScaling.scale",
+                                "scaling.SubtractScaling.scale"], ["C14"], variants=SOD_VARIANTS, setup=_setup_sod,
+         note="the array a scale returns has the dtype MultiScaling._compute_scale_dtype declares for it (double; "
+              "the input's for NoOp; NumPy's result_type for Add/Subtract) for int16 / float32 / float64 input and "
+              "every parameter value, including the identity Linear scale")
+def _scale_output_dtype(vc):
+    kind, dt = vc.variant
+    it = vc.interp
+    st = vc.st
+    st.real_floats = True
+    mk = (lambda n: vc.int(n)) if dt == "int16" else (lambda n: vc.real(n))
+    x = ListArr([mk("x0"), mk("x1")], dt)
+    x.alias = "input"
+    F64 = np.dtype("float64")
+    expect = F64
+    if kind == "linear":
+        s = it.instantiate(it.get("scaling.LinearScaling"), [vc.real("b"), vc.real("m"), RAW], {})
+        out = vc.call_method(s, "scale", x)
+    elif kind == "poly3":
+        s = it.instantiate(it.get("scaling.PolynomialScaling"), [[vc.real("c%d" % i) for i in range(3)], RAW], {})
+        out = vc.call_method(s, "scale", x)
+    elif kind == "table":
+        xs = [vc.real("in%d" % i) for i in range(3)]
+        ys = [vc.real("out%d" % i) for i in range(3)]
+        vc.assume(And(xs[0] < xs[1], xs[1] < xs[2]))
+        s = vc.new("scaling.TableScaling", input_values=ListArr(xs, "float64"), output_values=ListArr(ys, "float64"),
+                   input_source=RAW)
+        out = vc.call_method(s, "scale", x)
+    elif kind == "noop":
+        s = it.instantiate(it.get("scaling.NoOpScaling"), [RAW], {})
+        out = vc.call_method(s, "scale", x)
+        expect = np.dtype(dt)
+    elif kind == "rtd":
+        I, R0, A, B, C, RL = [vc.real(n) for n in ("I", "R0", "A", "B", "C", "RL")]
+        vc.assume(And(I > 0, R0 > 0, RL >= 0))
+        T = vc.real("T")
+        vc.assume(T < 0)                 # polyroots (assumed contract) delivers a negative real root: the dtype
+        st.ghost["rtd_true_T"] = T       # obligation is about the array the code builds from it, not its value
+        st.ghost["rtd_dtype_only"] = True
+        s = it.instantiate(it.get("scaling.RtdScaling"), [I, R0, A, B, C, RL, 3, RAW], {})
+        out = vc.call_method(s, "scale", x)
+    elif kind == "thermistor":
+        EV, R1, RL, a, b, c, off = [vc.real(n) for n in ("excitation", "R1", "RL", "a", "b", "c", "offset")]
+        vc.assume(And(EV > 0, R1 > 0, RL >= 0))
+        s = it.instantiate(it.get("scaling.ThermistorScaling"), [10134, EV, 3, R1, RL, a, b, c, off, RAW], {})
+        out = vc.call_method(s, "scale", x)
+    elif kind == "strain":
+        nu, RG, RL, Vinit, G, gain, Vex = [vc.real(n) for n in ("nu", "RG", "RL", "Vinit", "G", "gain", "Vex")]
+        vc.assume(And(G > 0, Vex > 0, gain > 0, RG > 0, RL >= 0))
+        s = it.instantiate(it.get("scaling.StrainScaling"), [BRIDGES["QUARTER_BRIDGE_1"], nu, RG, RL, Vinit, G, gain,
+                                                             Vex, RAW], {})
+        out = vc.call_method(s, "scale", x)
+    elif kind == "thermocouple":
+        props = {"NI_Scale[0]_Thermocouple_Thermocouple_Type": 10073, "NI_Scale[0]_Thermocouple_Scaling_Direction": 0,
+                 "NI_Scale[0]_Thermocouple_Input_Source": RAW}
+        cls = it.get("scaling.ThermocoupleScaling")
+        s = vc.call(it.getattr_value(cls, "from_properties"), props, 0).value
+        FN = z3.Function("TCF", z3.RealSort(), z3.RealSort())
+
+        def elementwise(i, f, a, k):
+            arr = a[1]
+            # contract of Thermocouple.mv_to_celsius / celsius_to_mv (harness thermocouple_eval): a new array of
+            # doubles for double input (np.zeros + masked assignment of polyval results)
+            vc.st.check("call-pre/thermocouple-conversion-gets-double-data", arr.dtype_ == F64, kind="call-pre")
+            return ListArr([SymReal(FN(z3real(e))) for e in arr.items], "float64")
+        it.contracts_at_calls["nptdms.thermocouples:Thermocouple.celsius_to_mv"] = elementwise
+        it.contracts_at_calls["nptdms.thermocouples:Thermocouple.mv_to_celsius"] = elementwise
+        out = vc.call_method(s, "scale", x)
+    else:
+        cls = "scaling.AddScaling" if kind == "add" else "scaling.SubtractScaling"
+        s = it.instantiate(it.get(cls), [0, 1], {})
+        y = ListArr([vc.real("y0"), vc.real("y1")], "float32")
+        out = vc.call_method(s, "scale", x, y)
+        expect = np.result_type(np.dtype(dt), np.dtype("float32"))
+    vc.ensure("no-exception", out.kind == "ret")
+    if out.kind != "ret":
+        return
+    got = out.value.dtype_ if isinstance(out.value, ListArr) else getattr(out.value, "dtype", None)
+    vc.ensure("scaled-array-has-the-declared-dtype(%s)" % expect, got is not None and np.dtype(got) == expect)
+    vc.ensure("length-preserved", len(out.value) == 2)
+
+
 # ---------------------------------------------------------------------------- sensor laws (C17)
 
 def _setup_rtd(interp):
@@ -407,8 +502,9 @@ def _setup_rtd(interp):
         val = cs[-1]
         for c in reversed(cs[:-1]):
             val = val * T + c
-        st.check("rtd/true-temperature-is-a-root-of-the-quartic-the-code-builds", val == 0, kind="ensures")
-        st.check("rtd/quartic-has-five-coefficients", len(cs) == 5, kind="ensures")
+        if not st.ghost.get("rtd_dtype_only"):
+            st.check("rtd/true-temperature-is-a-root-of-the-quartic-the-code-builds", val == 0, kind="ensures")
+            st.check("rtd/quartic-has-five-coefficients", len(cs) == 5, kind="ensures")
         return [Root(T)]
     interp.models[npoly.polyroots] = polyroots
     interp.models[np.iscomplex] = lambda i, r: False
